@@ -1,0 +1,14 @@
+//! Observation hooks for external verification harnesses. Compiled only with `--cfg egglog_verif`.
+use std::sync::Mutex;
+
+static PLAN_LOG: Mutex<Vec<(usize, usize)>> = Mutex::new(Vec::new());
+
+/// Record that a query with `atoms` atoms was planned into `bags` bags (1 = single-bag plan).
+pub(crate) fn record_plan(atoms: usize, bags: usize) {
+    PLAN_LOG.lock().unwrap().push((atoms, bags));
+}
+
+/// Drain the plan log: `(number of atoms, number of bags)` per planned query.
+pub fn take_plan_log() -> Vec<(usize, usize)> {
+    std::mem::take(&mut *PLAN_LOG.lock().unwrap())
+}
